@@ -157,7 +157,7 @@ PROPS = {
                "thorough": [mc("Restart-2x3", maxops=3, ops=("call", "restart", "stop"), scripts="ScriptsRestart", cfgs="CfgsStrat"),
                             mc("Restart-3x2", clients=C3, ops=("call", "restart"), scripts="ScriptsRestart", cfgs="CfgsStrat", kinds="InitKindsSC")]},
         "dev_demo": [("D3", mc("Timers-race-1x1", clients=("c1",), maxops=1, ops=("send", "stop", "drop"), scripts="ScriptsTimers", cfgs="CfgsTimersQ", horizon=4))],
-        "families": [("restart", 250, 2500), ("timers", 150, 1500), ("broker", 80, 800), ("mix", 120, 1200)],
+        "families": [("restart", 250, 2500), ("timers", 150, 1500), ("rstimers", 100, 1000), ("broker", 80, 800), ("mix", 120, 1200)],
         "relevant": r'"op":"restart"|ctx_restart', "relevant_min": 1,
     },
     "C08": {
@@ -202,7 +202,7 @@ PROPS = {
                             mc("Timers-idle-1x2", clients=("c1",), maxops=2, ops=("send", "stop", "drop"), scripts="ScriptsPlain", cfgs="CfgsTimers", horizon=8, idle=True),
                             mc("Timers-cancel-1x2", clients=("c1",), maxops=2, ops=("send", "stop"), scripts="ScriptsFail", cfgs="CfgsTimers", horizon=4, faults=("cancel",), maxfaults=1)]},
         "gen": {"quick": [gen("g-timer-2x1", "Main_Addr2_Timer", maxops=1, ops=("send", "stop", "drop"), horizon=4)], "thorough": [gen("g-timer-2x2", "Main_Addr2_Timer", ops=("send", "stop", "drop"), horizon=4)]},
-        "families": [("timers", 300, 3000), ("stream", 150, 1500), ("mix", 120, 1200)],
+        "families": [("timers", 300, 3000), ("stream", 150, 1500), ("timeout", 120, 1200), ("rstimers", 80, 800), ("mix", 120, 1200)],
         "relevant": r'timer_fire', "relevant_min": 1,
     },
     "C11": {
@@ -250,7 +250,7 @@ PROPS = {
                "thorough": [mc("Kinds-2x3", maxops=3, ops=KOPS, scripts="ScriptsStop", cfgs="CfgsUnb", kinds="InitKindsCaller"), 
                             mc("Kinds-sc-2x3", maxops=3, ops=KOPS, scripts="ScriptsRestart", cfgs="CfgsUnb", kinds="InitKindsSC")]},
         "dev_demo": [("D2", mc("Kinds-2x2", ops=KOPS, scripts="ScriptsStop", cfgs="CfgsUnb", kinds="InitKindsCaller"))],
-        "families": [("life", 250, 2500), ("timers", 80, 800), ("restart", 80, 800), ("stream", 100, 1000), ("broker", 60, 600), ("mix", 120, 1200)],
+        "families": [("life", 250, 2500), ("timers", 80, 800), ("restart", 80, 800), ("stream", 100, 1000), ("broker", 60, 600), ("timeout", 100, 1000), ("mix", 120, 1200)],
         "relevant": r'"op":"(caller|sender|upgrade|weak_caller|weak_sender)"|ctx_stop', "relevant_min": 1,
     },
     "C16": {
